@@ -195,6 +195,14 @@ async def one(x: Any) -> Any:
 async def both(a: Any, b: Any) -> Any:
     return await one(a) + await one(b)
 
+# F-C06f: a sequence pattern reads items with PySequence_GetItem (declared never-failing)
+def first_of_pair(x: Any) -> Any:
+    match x:
+        case [a, b]:
+            return a
+        case _:
+            return None
+
 # F-C06c: the target object of a nested augmented assignment is borrowed across the right operand
 class Inner:
     def __init__(self, n: int) -> None:
@@ -241,6 +249,10 @@ KNOWN_DRIVERS = {
         "import native, gc, sys\nfor i in range(200): native.Derived()\ngc.collect(); b = sys.getallocatedblocks()\n"
         "for i in range(2000): native.Derived()\ngc.collect(); d = sys.getallocatedblocks() - b\nprint('blocks', d)\n"
         "sys.exit(3 if d >= 2000 else 0)\n"),
+    "never-failing-primitive-can-return-null": (
+        "import native\nfrom collections.abc import Sequence\nclass Bad(Sequence):\n    def __len__(self): return 2\n"
+        "    def __getitem__(self, i): raise RuntimeError('boom')\ntry:\n    native.first_of_pair(Bad())\n"
+        "except RuntimeError:\n    print('raised')\n"),
     "stealing-primitive-leaks-on-error": (
         "import native, sys\nclass T: pass\nv = T(); l = [1]\nb = sys.getrefcount(v)\n"
         "for i in range(1000): native.set_item(l, 5, v)\nd = sys.getrefcount(v) - b\nprint('refs', d)\n"
@@ -288,7 +300,8 @@ def dynamic_generated(ctx: Ctx, tag: str, source: str, fnames: list[str], reps: 
         # CPython raises for an unassigned local / attribute but the compiled code carried on (or failed differently).
         # (The converse — compiled raises AttributeError after `del` of an attribute with a class-level default, CPython
         # falls back to the class attribute — is a documented mypyc difference and memory safe.)
-        if k in und and k != r["kind"]:
+        # A different exception (e.g. AttributeError from an earlier deleted-attribute read) is not a memory problem.
+        if k in und and r["kind"] == "ok":
             res["failures"].append(dict(r, **{"class": "undefined-read-differs", "interpreted": k}))
     return res
 
@@ -379,6 +392,10 @@ def classify(f: dict) -> dict:
         # borrow safety: a value borrowed from the heap is used after an op that may have rebound its owner
         obs = {"class": "heap-borrow-used-after-rebinding-op", "borrow_def": vd.get("op"), "use_op": b.get("ir_op"),
                "use_function": b.get("ir_function")}
+    elif b.get("value") == "N" and vd.get("op") == "CallC" and vd.get("error_kind") == 0 and vd.get("c_can_return_null"):
+        # error contract: the primitive is declared error_kind=ERR_NEVER (no error branch) but its C code can return NULL
+        obs = {"class": "never-failing-primitive-can-return-null", "primitive": vd.get("function"),
+               "c_reason": vd.get("c_can_return_null")}
     elif b.get("value") == "N" and vd.get("op") == "GetAttr" and vd.get("error_kind") == 0 \
             and not (vd.get("attr_always_initialized") and not vd.get("attr_deletable")):
         # side condition: a GetAttr without an error branch whose slot the ClassIR does not guarantee to be filled
@@ -504,6 +521,8 @@ def main(ctx: Ctx) -> None:
     ndyn = ctx.pick(3, 8)
     dyn_builds = {f"generated:{ctx.seed}:{j}": Build(ctx, f"gen{j}", {"native.py": gen_progs[j][0], "interp.py": gen_progs[j][0]}, ["native"])
                   for j in range(min(ndyn, len(gen_progs)))}
+    always = {"pinned:" + fn: (src, drv, Build(ctx, "always-" + fn[:-3], {"native.py": src}, ["native"]))
+              for fn, src, drv in pinned_programs() if fn.startswith("dyn_") and drv}
     results = export_all(ctx, gen_progs)
     lap("export_ir")
     funcs: list[tuple[dict, dict]] = []
@@ -669,6 +688,21 @@ def main(ctx: Ctx) -> None:
                        f"generated program {key} misbehaves when compiled: {json.dumps(fail)[:300]}",
                        {"source": gen_progs[j][0], "failure": fail, "program_kind": "gen-dynamic", "functions": gen_progs[j][1],
                         "dynamic": dyn})
+    for key, (src, drv, b) in always.items():
+        d, log = b.wait()
+        if d is None:
+            ctx.dist("dynamic_stream", "always-run program: build-failed")
+            if key not in reported_programs and ctx.violations:
+                continue
+            raise ToolFailure(f"the always-run program {key} does not build: {log[-300:]}")
+        rc, out = run_py(d, drv, [], timeout=300)
+        ctx.dist("dynamic_stream", "always-run program: " + ("ok" if rc == 0 else "failed"))
+        if rc < 0 or rc in (134, 139) or (rc != 0 and "PROBLEM" in out):
+            ctx.report({"class": "dynamic-object-lifecycle", "program": key},
+                       f"{key}: " + (out.strip().splitlines()[-1][:200] if out.strip() else f"exit {rc}") + f" (exit {rc})",
+                       {"source": src, "program_kind": "pinned", "dynamic": {"program": src, "driver": drv, "exit_code": rc, "output": out[-400:]}})
+        elif rc != 0:
+            raise ToolFailure(f"driver of {key} failed: {out[-300:]}")
     lap("dynamic_stream")
 
     if not proved and not ctx.violations:
